@@ -94,6 +94,7 @@ inductive Ev
   | tConnect (k : Nat) | tLogon (o : Oid) | tInput (o : Oid) (s : String) | tCmd (o : Oid) (v : String)
   | tNetdead (o : Oid) | tHb (o : Oid) | tCo (o : Oid) (tag : String) | tReset (o : Oid) | tCleanup (o : Oid)
   | tIt (o : Oid) (tag : String) (line : String) | xIt (o : Oid) (tag : String) | tPrompt (o : Oid)
+  | tEpilog | tPreload (name : String)
   | xErr (who : String) | xCerr (o : Oid) | xDest (o t : Oid) | xCo (o : Oid) (tag : String) | xHb (o : Oid) (n : Nat)
   | meh (caught : Bool) (msg : String)
   | hbs (l : List String) | out (name : String) (text : String) | slots (n : Nat)
@@ -789,6 +790,22 @@ def timerSweeps (rh : HookFn) (w : W) : W :=
 def callHeartBeat (rh : HookFn) (w : W) : R :=
   let r := hbRound rh { w with hbFlag := false, now := w.clock, hbToDo := w.hbs.length }
   if r.2 then (r.1, true) else (timerSweeps rh r.1, false)
+
+/-! ## preload_objects() (backend.c; called by main() before backend()) -/
+
+/-- the loop over the array epilog() returned: master->preload (file) for every entry; an error is reported, the
+    recovery point in front of the loop does `ix++` and the loop goes on with the NEXT file ("effectively a continue") -/
+def preloadFiles : List (String × Bool) → W → W
+  | [], w => w
+  | (name, raises) :: fs, w =>
+    if raises then preloadFiles fs (errorHandler (emit (emit w (.tPreload name)) (.xErr name)) s!"boom {name}")
+    else preloadFiles fs (emit w (.tPreload name))
+
+/-- preload_objects(): epilog() under its own recovery point (an error there: nothing is preloaded), then the files
+    under a second one -/
+def preloadObjects (epilogRaises : Bool) (files : List (String × Bool)) (w : W) : W :=
+  if epilogRaises then popCtx (errorHandler (emit (emit (pushCtx w) .tEpilog) (.xErr "epilog")) "boom epilog")
+  else popCtx (preloadFiles files (pushCtx (popCtx (emit (pushCtx w) .tEpilog))))
 
 /-! ## backend() -/
 
